@@ -381,9 +381,9 @@ func (c *Ctx) classifyTerm(s *termSite) {
 		}
 		return
 	}
-	if v, nilWhenTrue, isNil := ir.NilCheck(ce.If.Cond); isNil && isErrorType(v.Type()) {
+	if v, nilWhenTrue, isNil := ir.NilCheck(ce.RawCond); isNil && isErrorType(v.Type()) {
 		// which truth value of the If condition does this edge carry?
-		succTrue := fn.Blocks[ce.Edge.From].Succs[0].Index == ce.Edge.To
+		succTrue := ce.RawTruth
 		errNonNil := (succTrue && !nilWhenTrue) || (!succTrue && nilWhenTrue)
 		if errNonNil {
 			origins := errorOrigins(v, map[ssa.Value]bool{})
